@@ -143,8 +143,16 @@ def scan_forbidden():
 ALLOWED_AXIOMS = ()  # none needed so far; a stdlib axiom that a later proof pulls in must be named here and in TRUSTED_BASE
 
 
-def check_proofs(prop):
-    """Compile the property file; return (obligations, discharged, problems, assumptions)."""
+def check_proofs(prop, extra=()):
+    """Compile the property file(s); return (obligations, discharged, problems, assumptions)."""
+    tot = [0, 0, [], {}]
+    for name in (prop,) + tuple(extra):
+        o, d, pr, a = check_proofs_file(name)
+        tot[0] += o; tot[1] += d; tot[2] += pr; tot[3].update(a)
+    return tot[0], tot[1], tot[2], tot[3]
+
+
+def check_proofs_file(prop):
     vf = os.path.join(COQ, 'theories', 'Properties', prop + '.v')
     problems = []
     if not os.path.exists(vf):
@@ -328,7 +336,7 @@ def main():
         sys.exit(2)
 
     # ---- 1. proof obligations ----
-    obligations, discharged, problems, assumptions = check_proofs(prop)
+    obligations, discharged, problems, assumptions = check_proofs(prop, spec.get('extra_props', ()))
     proof_problems += problems
     bad = scan_forbidden()
     if bad:
@@ -443,7 +451,7 @@ def main():
         'property_id': prop, 'tier': tier, 'seed': seed, 'level': 'proof',
         'coverage': {
             'obligations': obligations, 'discharged': discharged if not proof_problems else min(discharged, max(obligations - 1, 0)),
-            'checker_cmd': 'make -C coq -j16 && coqc -Q coq/theories PP coq/theories/Properties/%s.v' % prop + (' && coqchk -silent -o (thorough)' if tier == 'thorough' else ''),
+            'checker_cmd': 'make -C coq -j16 && ' + ' && '.join('coqc -Q coq/theories PP coq/theories/Properties/%s.v' % x for x in (prop,) + tuple(spec.get('extra_props', ()))) + (' && coqchk -silent -o (thorough)' if tier == 'thorough' else ''),
             'trusted_base': TRUSTED_BASE + spec.get('trusted', []),
             'theorems': sorted(assumptions.keys()), 'assumptions_per_theorem': assumptions,
             'proof_problems': proof_problems,
